@@ -215,6 +215,9 @@ def rule_keys_table(ctx):
 
 
 def run(ctx):
+    from ..rules import round5 as _R5e
+    _R5e.rule_octave_from_letter(ctx)
+    _R5e.rule_integer_accumulators(ctx, ['partitura.musicanalysis.key_identification', 'partitura.musicanalysis.pitch_spelling'])
     from ..rules import midi as _M4
     _M4.rule_note_pairing(ctx)
     from ..rules import extra as _X4
